@@ -309,6 +309,11 @@ type SigningKey struct {
 
 // NewKey creates a key; with notAfter != nil a certificate valid from one hour ago until notAfter.
 func (p *PKI) NewKey(kid string, notAfter *time.Time) (*SigningKey, error) {
+	return p.NewKeyWithUsage(kid, notAfter, x509.KeyUsageDigitalSignature)
+}
+
+// NewKeyWithUsage is NewKey with another key usage of the certificate.
+func (p *PKI) NewKeyWithUsage(kid string, notAfter *time.Time, usage x509.KeyUsage) (*SigningKey, error) {
 	priv, err := ecdsa.GenerateKey(elliptic.P256(), rand.Reader)
 	if err != nil {
 		return nil, err
@@ -323,13 +328,54 @@ func (p *PKI) NewKey(kid string, notAfter *time.Time) (*SigningKey, error) {
 			testsupport.WithSubject(pkix.Name{CommonName: "verif ee " + kid, Organization: []string{"Test"}, Country: []string{"EU"}}),
 			testsupport.WithValidity(nb, notAfter.Sub(nb)),
 			testsupport.WithSubjectPubKey(&priv.PublicKey, x509.ECDSAWithSHA256),
-			testsupport.WithKeyUsage(x509.KeyUsageDigitalSignature),
+			testsupport.WithKeyUsage(usage),
 		)
 		if err != nil {
 			return nil, err
 		}
 	}
 	return k, nil
+}
+
+// NewKeyVia creates a key whose certificate (valid until leafEnd) is issued by a new intermediate CA of the PKI (valid
+// until caEnd); Chain holds the intermediate certificate, so the published x5c is leaf, intermediate.
+func (p *PKI) NewKeyVia(kid string, leafEnd, caEnd time.Time) (*SigningKey, error) {
+	validFrom := func(end time.Time) time.Time {
+		nb := time.Now().Add(-2 * time.Hour)
+		if end.Before(nb) {
+			nb = end.Add(-2 * time.Hour)
+		}
+		return nb
+	}
+	caPriv, err := ecdsa.GenerateKey(elliptic.P256(), rand.Reader)
+	if err != nil {
+		return nil, err
+	}
+	nb := validFrom(caEnd)
+	caCert, err := p.CA.IssueCertificate(
+		testsupport.WithSubject(pkix.Name{CommonName: "verif intermediate " + kid, Organization: []string{"Test"}, Country: []string{"EU"}}),
+		testsupport.WithIsCA(),
+		testsupport.WithValidity(nb, caEnd.Sub(nb)),
+		testsupport.WithSubjectPubKey(&caPriv.PublicKey, x509.ECDSAWithSHA384),
+	)
+	if err != nil {
+		return nil, err
+	}
+	priv, err := ecdsa.GenerateKey(elliptic.P256(), rand.Reader)
+	if err != nil {
+		return nil, err
+	}
+	nb = validFrom(leafEnd)
+	cert, err := testsupport.NewCA(caPriv, caCert).IssueCertificate(
+		testsupport.WithSubject(pkix.Name{CommonName: "verif ee " + kid, Organization: []string{"Test"}, Country: []string{"EU"}}),
+		testsupport.WithValidity(nb, leafEnd.Sub(nb)),
+		testsupport.WithSubjectPubKey(&priv.PublicKey, x509.ECDSAWithSHA256),
+		testsupport.WithKeyUsage(x509.KeyUsageDigitalSignature),
+	)
+	if err != nil {
+		return nil, err
+	}
+	return &SigningKey{KID: kid, Priv: priv, Cert: cert, Chain: []*x509.Certificate{caCert}}, nil
 }
 
 // JWKS renders a key set document of the given keys.
